@@ -1,5 +1,6 @@
 """C01 -- generated Jaqal text parses back to the same circuit (round trip)."""
 from .. import sx, gen, lib, meaning as M, monitors, minimise
+from . import builder_route
 from .common import header_diff, native_names, prog_features, sig, case_prog, err_class
 
 RULE = ("programs generated from the full header/body model (lets of any sign/magnitude incl. exponent-repr floats, "
@@ -9,12 +10,15 @@ RULE = ("programs generated from the full header/body model (lets of any sign/ma
 ASSUMPTIONS = ["reference meaning (vf/meaning.py) reads IR objects through public attributes only",
                "autoload_pulses=False: pulse imports are kept as statements, not loaded"]
 TIERS = {"quick": {"shards": 8, "budget_s": 60}, "thorough": {"shards": 16, "budget_s": 300}}
-REQUIRE = {"route:text": 50, "route:build": 50, "route:build-lists": 50, "lit:float-exp": 5, "node:subcircuit_block": 20, "map:6": 20, "node:macro": 20}
+REQUIRE = {"route:builder": 500, "route:text": 50, "route:build": 50, "route:build-lists": 50, "lit:float-exp": 5, "node:subcircuit_block": 20, "map:6": 20, "node:macro": 20}
 
 
-def build_circuit(prog, route):
+def build_circuit(prog, route, bseed=0):
     if route == "text":
         return lib.parse(sx.to_text(prog))
+    if route == "builder":
+        # the object-oriented CircuitBuilder API used the documented way (objects built at once or unevaluated, numpy numbers)
+        return builder_route.via_builder(prog, bseed)[0]
     if route == "build-lists":
         return lib.build(_lists(prog))
     return lib.build(prog)
@@ -30,7 +34,7 @@ def judge(case):
     route = case.get("route", "text")
     if not sx.legal_nesting(prog):
         return "skipped:illegal-nesting", []
-    o = lib.outcome(build_circuit, prog, route)
+    o = lib.outcome(build_circuit, prog, route, case.get("bseed", 0))
     if o[0] != "ok":
         return "skipped:input-rejected:%s" % o[1], []
     c = o[1]
@@ -116,8 +120,8 @@ def process(ctx, case, seen):
         if seen[key] > 2:
             rec.count("unminimised-repeat:" + clause)
             continue
-        small = minimise.minimise(prog, lambda p: clause in _clauses({"prog": p, "route": case.get("route")}), budget=250)
-        small_case = {"prog": small, "route": case.get("route")}
+        small = minimise.minimise(prog, lambda p: clause in _clauses({"prog": p, "route": case.get("route"), "bseed": case.get("bseed", 0)}), budget=250)
+        small_case = {"prog": small, "route": case.get("route"), "bseed": case.get("bseed", 0)}
         st2, fails2 = judge(small_case)
         d2 = [f for f in fails2 if f[0] == clause]
         rec.violation(sig("C01", clause, prog_features(small)), d2[0][1] if d2 else detail, small_case)
@@ -135,8 +139,10 @@ def shard(ctx):
         g = gen.ProgGen(rng, max_depth=rng.choice([2, 3, 4, 6]), need_register=rng.random() < 0.9,
                         p_hostile_names=rng.choice([0.0, 0.15, 0.3]), macro_sub=rng.random() < 0.3)
         prog = g.program()
-        route = "text" if rng.random() < 0.6 else rng.choice(["build", "build-lists"])
+        route = "text" if rng.random() < 0.5 else rng.choice(["build", "build-lists", "builder", "builder"])
         case = {"prog": prog, "route": route}
+        if route == "builder":
+            case["bseed"] = rng.randrange(1 << 30)
         for k, v in sx.features(prog).items():
             if k != "depth":
                 rec.count(k, v)
